@@ -499,6 +499,15 @@ func (env *specEnv) call(e *ast.CallExpr) Val {
 			return Val{T: "false"}
 		}
 		return Val{T: env.seqEq(arg(0), arg(1)), Sort: "Bool"}
+	case "brank":
+		// brank(b): rank of the contents of byte slice b in lexicographic order (see rankTerm)
+		if !need(1) {
+			return Val{T: "0.0", Sort: "Real"}
+		}
+		x := arg(0)
+		fv.eng.needBytesRank()
+		hh := sc.sliceHeap(types.Typ[types.Uint8])
+		return Val{T: "(bytes.rank (select " + env.heapRead(hh, x) + " " + sRef(x.T) + ") " + sOff(x.T) + " " + sLen(x.T) + ")", Sort: "Real"}
 	case "sprintf":
 		// sprintf("format", args...): the engine's model of fmt.Sprintf for that constant format
 		if lit, ok := e.Args[0].(*ast.BasicLit); ok {
